@@ -49,13 +49,14 @@ def check_class(res, index, cls):
     for e in ev:
         if e.type == "reduce" and e.target is not None and "batch" in e.target.tags:
             nred += 1
-            if e.axis is None:
-                stmt = e.f.get("stmt")
-                in_test = isinstance(stmt, (ast.If, ast.While)) and any(n is e.node for n in ast.walk(stmt.test))
-                if not in_test:
-                    bad2 = True
-                    res.bad("IN-2", f"{label}:{e.fn}", e.where(), f"{label}: axis-less {e.fn}() collapses the batch of points into one value "
-                            f"(`{e.src()[:60]}`); a batch call no longer answers element by element")
+    # an axis-less reduction is harmless while it only feeds control flow; it must not reach a returned value
+    for (rv, _s, _n) in r["returns"]:
+        for d in sorted(x for x in rv.deps if x[0] == "collapsed"):
+            site = [e for e in ev if e.type == "reduce" and f"{e.fn}@{getattr(e.node, 'lineno', 0)}" == d[1]]
+            bad2 = True
+            res.bad("IN-2", f"{label}:{d[1].split('@')[0]}", site[0].where() if site else where,
+                    f"{label}: axis-less {d[1].split('@')[0]}() collapses the batch of points into one value "
+                    f"(`{site[0].src()[:60] if site else d[1]}`) that reaches the returned answer; a batch call no longer answers element by element")
     v = r["result"]
     if v is not None and "batch" not in v.tags:
         bad2 = True
